@@ -78,11 +78,9 @@ def c051(ctx):
     R = "C05.1"
     ctx.declare(R, "garbage collection only at the top level, only through the configured policy")
     callers = K.callers_of(ctx, TREE + r"perform_garbage_collection$")
-    ctx.check(R, "lsmtk", "gc-callers", set(callers) == {TREE + "perform_compaction"},
-              "perform_garbage_collection is called only from perform_compaction", "perform_garbage_collection is called from %s" % sorted(callers))
-    f = ctx.fn(R, TREE + "perform_compaction")
-    if f:
-        for pt in ctx.calls(R, f, TREE + r"perform_garbage_collection$"):
+    ctx.floor(R, "callers of perform_garbage_collection", len(callers), 1)
+    for sk, (f, pts) in sorted(callers.items()):
+        for pt in pts:
             g = K.guarded_by_call(f, pt, r"lsmtk::tree::Compaction::top_level$", label="sw:1")
             ctx.check(R, f, "top-level-guard", g is not None, "GC is taken only on the true edge of compaction.top_level()",
                       "garbage collection can run for a compaction that is not top-level", pt=pt)
